@@ -1806,7 +1806,42 @@ class Evaluator:
                         for x_ in ast.walk(ci_.module.tree)):
                     return ("const", d_[0].value.value)
             return ("attr", base, n.attr)
+        if base == ("param", "self") and self.cls is not None and not self.index.class_by_qual(self.cls.qual) is None:
+            v = self._class_constant(n.attr)
+            if v is not None:
+                return v
         return ("attr", base, n.attr)
+
+    def _class_constant(self, name):
+        """self.<name> where <name> is a class-level table of constants (a display of constant strings / numbers / tuples of them)
+        declared in a class the reference tree does not have or overridden along the MRO of the class under analysis, and never
+        assigned through an instance: its value for THIS class (the first declaration along the MRO)"""
+        for c in (getattr(self, "dyn_cls", None) or self.cls).mro():
+            for st in c.node.body:
+                tg = st.targets if isinstance(st, ast.Assign) else ([st.target] if isinstance(st, ast.AnnAssign) and st.value is not None else [])
+                if any(isinstance(t_, ast.Name) and t_.id == name for t_ in tg):
+                    val = st.value
+
+                    def const_display(v):
+                        if isinstance(v, ast.Constant):
+                            return ("const", v.value)
+                        if isinstance(v, (ast.Tuple, ast.List)) and not any(isinstance(e, ast.Starred) for e in v.elts):
+                            items = [const_display(e) for e in v.elts]
+                            return None if any(i is None for i in items) else ("tuple" if isinstance(v, ast.Tuple) else "list", tuple(items))
+                        return None
+                    if not isinstance(val, (ast.Tuple, ast.List)):
+                        return None
+                    out = const_display(val)
+                    if out is None:
+                        return None
+                    # never written through an instance or the class anywhere in the package
+                    key = ("_attr_stores", name)
+                    cache = self.index.__dict__.setdefault("_attr_store_cache", {})
+                    if name not in cache:
+                        cache[name] = any(isinstance(x, ast.Attribute) and x.attr == name and isinstance(x.ctx, (ast.Store, ast.Del))
+                                          for m_ in self.index.modules.values() for x in ast.walk(m_.tree))
+                    return None if cache[name] else out
+        return None
 
     def _is_record(self, t) -> bool:
         if t[0] == "ite":
@@ -3072,6 +3107,8 @@ class Evaluator:
                 return None
             sub = Evaluator(self.index, module, node, qual, cls)
             sub.inline_stack = self.inline_stack + (qual,)
+            if selfterm in (("param", "self"), ("param", "cls")):
+                sub.dyn_cls = getattr(self, "dyn_cls", None) or self.cls  # the class of the receiver: class-level tables are read from it
             try:
                 cs = sub.run()
             except (AnalysisError, RecursionError):
@@ -3579,7 +3616,7 @@ class Evaluator:
             if disp and 0 < n_ <= 8 and not any(a_[0] == "star" for a_ in it[2]):
                 del self.events[mark:]
                 it = ("tuple", tuple(("tuple", tuple(a_[1][i_] if a_ in disp else sub_const(a_, i_) for a_ in it[2])) for i_ in range(n_)))
-        if it[0] not in ("tuple", "list") or not (0 < len(it[1]) <= 8) or any(x[0] == "star" for x in it[1]) or len(self.events) != mark:
+        if it[0] not in ("tuple", "list") or not (0 < len(it[1]) <= (32 if kind == "dict" else 8)) or any(x[0] == "star" for x in it[1]) or len(self.events) != mark:
             del self.events[mark:]
             return None
         saved_env = dict(self.env)
@@ -3605,7 +3642,8 @@ class Evaluator:
         for g in n.generators:
             it = self.ev(g.iter, inner)
             fused = None
-            if it[0] == "comp" and it[1] == "gen" and len(it[3]) == 1 and it[3][0][0] in self.loops:
+            if it[0] == "comp" and (it[1] == "gen" or (it[1] == "list" and not isinstance(g.iter, (ast.Name, ast.Attribute)))) and len(it[3]) == 1 \
+                    and it[3][0][0] in self.loops:
                 # a comprehension over a lazy generator (genexp / map / filter) is one loop: elements are produced and
                 # consumed one at a time
                 fused = it
